@@ -52,10 +52,48 @@ def shards(tier):
         for pos in ('arg', 'field', 'array'):
             out.append({'level': 'E', 'encoding': enc, 'pos': pos, 'tier': tier})
     out.append({'level': 'H', 'tier': tier})
+    # header histories: which of two declared header blocks a request carries, in every order of three requests
+    for first in range(4):
+        out.append({'level': 'J', 'first': first, 'tier': tier})
     # call-order histories over a three-level class hierarchy (shared with C02)
     for first in ('mb', 'ms', 'ml'):
         out.append({'level': 'I', 'first': first, 'tier': tier})
     return out
+
+
+HDR_SHAPES = [('both', True, True), ('first-only', True, False), ('second-only', False, True), ('none', False, False)]
+
+
+def run_header_histories(shard, res, only=None):
+    """one application, a method declaring two in / out header classes: requests that carry both, one or none of the
+    blocks in every order; the function (and the response) must see exactly the blocks of THAT request"""
+    at = atom_by_id('Integer')
+    program = universe.program_for(at, 'header2a')
+    res['cov']['programs'] += 1
+    depth = 3 if shard.get('tier', 'quick') == 'quick' else 4
+    for rest in itertools.product(range(4), repeat=depth - 1):
+        hist = [shard['first']] + list(rest)
+        if only is not None and only['hist'] != hist:
+            continue
+        for proto in ('soap11', 'soap12'):
+            for validator in (None, 'soft', 'lxml'):
+                if only is not None and (only['proto'] != proto or only['validator'] != validator):
+                    continue
+                h = harness.XmlHarness(program, proto, validator)
+                for step, si in enumerate(hist):
+                    name, g, hh = HDR_SHAPES[si]
+                    ih = {'G': Obj('G', g='g%d' % step) if g else None, 'H': Obj('H', f=100 + step, z=step) if hh else None}
+                    oh = {'G': Obj('G', g='og%d' % step) if hh else None, 'H': Obj('H', f=200 + step, z=step) if g else None}
+                    casedoc = {'level': 'J', 'shard': shard, 'hist': hist, 'proto': proto, 'validator': validator, 'step': step}
+                    ctx = {'site': 'J|%s|after-%s' % (name, '+'.join(sorted(set(HDR_SHAPES[i][0] for i in hist[:step]))) or 'nothing'), 'case': casedoc}
+                    oc = run_case(h, 'm', [step], step * 2, ih if (g or hh) else None, oh, ctx, res, check_client=False)
+                    res['evaluations'] += 1
+                    res['outcomes'][oc] = res['outcomes'].get(oc, 0) + 1
+                    if oc == 'ok':
+                        res['nontrivial'] += 1
+                    else:
+                        break
+        res['cov']['header_histories'] = res['cov'].get('header_histories', 0) + 1
 
 
 def run_hier(shard, res, only=None):
@@ -433,6 +471,9 @@ def run_shard(shard):
     if shard['level'] == 'I':
         run_hier(shard, res)
         return compress(res)
+    if shard['level'] == 'J':
+        run_header_histories(shard, res)
+        return compress(res)
     if shard['level'] == 'E':
         program = universe.program_for(atom_by_id('Unicode'), shard['pos'])
         res['cov']['programs'] += 1
@@ -499,6 +540,9 @@ def replay(case):
         return res['violations']
     if case['level'] == 'I':
         run_hier(case['shard'], res, only=case)
+        return res['violations']
+    if case['level'] == 'J':
+        run_header_histories(case['shard'], res, only=case)
         return res['violations']
     if case['level'] == 'A':
         at = atom_by_id(case['atom'])
